@@ -264,9 +264,7 @@ class Cache:
             return "filter on a table containing window function expression"
 
         if isinstance(node, verbs.Summarize):
-            if (self.group_by and self.group_by != set(self.partition_by)) or (
-                self.is_summarized and not self.group_by
-            ):
+            if self.is_summarized:
                 return "nested summarize"
             if any(
                 (col.ftype(agg_is_window=False) in (Ftype.WINDOW, Ftype.AGGREGATE))
